@@ -26,7 +26,7 @@ RULE = (
     "parameter has >= 2 blocks or a merge changed its shape. metamorphic: case = configuration x shapes x history; non-trivial likewise and >= 2 steps. "
     "Distinct = canonical JSON."
 )
-BOUNDS = "orders 0-4, dims <= 12 (random) / <= 5 (grid), thresholds 1..12 and 1024; metamorphic histories <= 6 steps, numel <= 200"
+BOUNDS = "orders 0-4, dims <= 12 (random) / <= 5 (grid) / <= 300 (large), thresholds 1..12 and 1024; structure_many: 1024-2088 blocks along one axis (thorough: up to 65576); metamorphic histories <= 6 steps, numel <= 200"
 TOLERANCES = "metamorphic: ||w_blocked - w_presplit||_F <= 16*eps(dtype)*(sum_t ||delta w_t||_F + ||w||_F) per block (a strided and a contiguous reduction may associate differently)"
 ASSUMPTIONS = ["untyped_storage().data_ptr() identifies aliasing"]
 NONTRIVIAL_FLOOR = 50
